@@ -13,7 +13,7 @@ import z3
 from . import values as V
 from .core import Exec, PathEnd, PyRaise
 from .source import FuncSource, source_of, unwrap
-from .values import SBool, SExc, SInt, SList, SMap, SObj, Sym, Unsupported
+from .values import SBool, SExc, SInt, SList, SMap, SObj, SODict, Sym, Unsupported
 
 LOGGER_NAMES = ("_logger", "_shm_logger", "_access_logger", "logger", "_LOGGER", "_log")
 
@@ -1139,7 +1139,7 @@ class Interp:
                 return getattr(obj.cls, name)
             except AttributeError:
                 raise self.mkraise(SExc(AttributeError, (f"{obj.cls.__name__!r} object has no attribute {name!r}",))) from None
-        if isinstance(obj, (Sym, SList, SMap)):
+        if isinstance(obj, (Sym, SList, SMap, SODict)):
             return SymMethod(obj, name)
         if isinstance(obj, (Closure, BoundMethod)):
             if name in ("__name__", "__qualname__"):
